@@ -151,6 +151,93 @@ def handler_body(mir, b, regs_by_fn):
     return names
 
 
+DROPPING = re.compile(r'^std::iter::Iterator::(last|nth|nth_back|count|skip|step_by|max|min|max_by|min_by|max_by_key|min_by_key|sum|product|position|rposition|advance_by|skip_while|filter|filter_map|find|find_map|flatten|flat_map|take_while|map_while|reduce|fold)$')
+UNCONDITIONAL = {'last', 'nth', 'nth_back', 'count', 'skip', 'step_by', 'max', 'min', 'max_by', 'min_by', 'max_by_key', 'min_by_key', 'advance_by', 'position', 'rposition', 'flatten'}
+
+
+def dropping_adaptors(ctx, r6):
+    """Generator items are Result<Result<value, error>, RuntimeViolation>.  An Iterator adaptor that discards items by
+    position or count (skip, nth, last, count, step_by, min/max ..) discards violations with them; an adaptor that decides
+    per item through a closure (filter, filter_map, skip_while, take_while, find ..) is judged by abstract evaluation of
+    that closure on a violation item: it must keep it (filter: true; filter_map: Some(the item); skip_while: false; ..)."""
+    from .lib import absint
+    mir = ctx.mir
+    n = 0
+    for b in mir.bodies:
+        for bb, t in b.calls():
+            d = strip_generics(t.get('decl') or '')
+            m = DROPPING.match(d)
+            if not m:
+                continue
+            ty = (t.get('argtys') or [''])[0]
+            if 'runtime_violation::RuntimeViolation' not in ty:
+                continue
+            meth = m.group(1)
+            n += 1
+            ok = False
+            why = ''
+            if meth in UNCONDITIONAL:
+                why = '`%s` discards items by position: a violation raised while producing a discarded element is swallowed' % meth
+            elif meth in ('fold', 'reduce', 'sum', 'product', 'flat_map', 'map_while'):
+                ok = True    # every item reaches the closure / accumulator: judged by the linearity rule R06.1 there
+            else:
+                # closure verdict on a violation item
+                cl = None
+                for a in t['args'][1:]:
+                    k2, v2 = mirq.chase_op(b, a)
+                    if k2 == 'rv' and v2[2]['rv']['k'] == 'agg' and v2[2]['rv'].get('ak') == 'closure':
+                        cl = mir.by_id.get(v2[2]['rv'].get('def'))
+                if cl is None:
+                    why = 'the per-item decision of `%s` is not a closure of this crate' % meth
+                else:
+                    item = ('err', 'VIOLATION')
+
+                    def build(ty):
+                        # the abstract closure argument for its declared type: the item position holds a violation, a zipped
+                        # budget permit is granted, Option / tuple / reference wrappers are followed
+                        ty = ty.strip()
+                        if ty.startswith('&'):
+                            return ('boxed', build(re.sub(r"^&(mut )?('\\w+ )?", '', ty)))
+                        head, args = split_generic(ty)
+                        if head == 'std::result::Result' and len(args) == 2 and split_generic(args[1])[0] == RV:
+                            return ('ok', ('tuple', ())) if args[0].strip() == '()' else item
+                        if head == 'std::option::Option' and len(args) == 1:
+                            return ('some', build(args[0]))
+                        if ty.startswith('(') and ty.endswith(')'):
+                            inner = split_generic('T<' + ty[1:-1] + '>')[1]
+                            return ('tuple', tuple(build(x) for x in inner))
+                        return absint.UNKNOWN
+
+                    def unbox(v, env, path='#p'):
+                        if isinstance(v, tuple) and v and v[0] == 'boxed':
+                            env[path] = unbox(v[1], env, path + 'x')
+                            return ('ref', path)
+                        if isinstance(v, tuple) and v and v[0] == 'tuple':
+                            return ('tuple', tuple(unbox(x, env, path + str(i)) for i, x in enumerate(v[1])))
+                        if isinstance(v, tuple) and v and v[0] == 'some':
+                            return ('some', unbox(v[1], env, path + 's'))
+                        return v
+                    env0 = {}
+                    env0['_2'] = unbox(build(cl.local_ty(2)), env0)
+
+                    def nothing(tm, vals, env):
+                        return absint.UNKNOWN
+                    rs = absint.returns(mir, cl, env0, nothing)
+                    if meth in ('filter', 'take_while'):
+                        ok = rs == {True}
+                    elif meth in ('skip_while',):
+                        ok = rs == {False}
+                    elif meth in ('filter_map', 'find_map'):
+                        ok = rs == {('some', item)}
+                    elif meth == 'find':
+                        ok = rs == {True}
+                    why = '' if ok else 'on a violation item the closure of `%s` returns %s: the violation is dropped' % (meth, sorted(map(str, rs)))
+            r6.inst({'body': b.nid, 'site': mirq.site(b, bb), 'adaptor': meth, 'keeps_violations': ok}, ok=ok, kind=(b.nid, bb))
+            if not ok:
+                r6.fail('%s/%s' % (b.nid.split('::{closure')[0], meth), mirq.site(b, bb), why)
+    r6.need(4)
+
+
 def raise_gate(ctx, r4):
     """R06.4 (also R07.7): in eval_func_with_values, every *origin* of the argument vector that reaches the frame
     construction (the incoming parameter, and the payload of TailCall taken by the trampoline) must pass the raise test --
@@ -320,6 +407,10 @@ def run(ctx):
     # ---------------- R06.4 user-function calls raise erroring arguments before the frame is built
     r4 = ctx.rule('R06.4', 'user-function call path returns an erroring argument before building the frame')
     raise_gate(ctx, r4)
+
+    # ---------------- R06.6 std adaptors that drop items are not applied to iterators whose items can be violations
+    r6 = ctx.rule('R06.6', 'iterator adaptors that drop items never drop a violation item')
+    dropping_adaptors(ctx, r6)
 
     # ---------------- R06.5 collections cannot hold errors
     r5 = ctx.rule('R06.5', 'collection element types cannot hold an error (only scope cells and argument vectors hold EvaluatedValue)')
